@@ -78,7 +78,7 @@ FAMILIES = ['walk', 'through', 'inside-out', 'zigzag-flat', 'axis', 'shared-y', 
 # shapes of the BROAD judged class (closed paths in general position, open polylines arbitrary): open vertices 0..3 units from
 # the closed edge the path has just crossed, hairpins 1-2 units wide through an edge, vertices grazing an edge, fold-backs,
 # first = last loops.  1 case in 4; never scaled (scaling would move them out of "near"), only translated.
-BROAD_FAMILIES = ['near-cross', 'near-cross', 'near-cross', 'hairpin', 'hairpin', 'graze', 'spike', 'loop', 'horz-spike', 'horz-spike']
+BROAD_FAMILIES = ['near-cross', 'near-cross', 'near-cross', 'hairpin', 'hairpin', 'graze', 'tip-cross', 'tip-cross', 'spike', 'loop', 'horz-spike', 'horz-spike']
 DEGENERATE_FAMILIES = BROAD_FAMILIES
 BROAD_OFFSETS = [0, 0, 1000, 10 ** 6, 2 ** 29, 2 ** 39, 2 ** 51]
 
@@ -124,6 +124,18 @@ def broad_path(rng, closed, box, fam):
         pts = [A, apex, B]
         if rng.chance(1, 4):
             pts.append(_at(P, T, N, rng.range(-50, 50), -s * rng.range(20, 120)))
+        return pts
+    if fam == 'tip-cross':
+        # a long segment passing 0..5 units from a closed VERTEX (through the tip just below its apex, or just missing it)
+        v = rng.choice([q for p in closed for q in p])
+        qx, qy = v[0] + rng.range(-5, 5), v[1] + rng.range(-5, 5)
+        ux, uy = rng.range(-20, 20), rng.range(-20, 20)
+        if (ux, uy) == (0, 0):
+            ux = 1
+        k1, k2 = rng.range(3, 9), rng.range(3, 9)
+        pts = [(qx - ux * k1, qy - uy * k1), (qx + ux * k2, qy + uy * k2)]
+        if rng.chance(1, 3):
+            pts.append((pts[-1][0] + rng.range(-60, 60), pts[-1][1] + rng.range(-60, 60)))
         return pts
     if fam == 'graze':
         # approaches an edge to within 0..3 units and turns back without (or barely) crossing
